@@ -14,6 +14,8 @@ import (
 
 	"github.com/lianxiangcloud/linkchain/consensus"
 	"github.com/lianxiangcloud/linkchain/libs/common"
+	"github.com/lianxiangcloud/linkchain/libs/crypto"
+	dbm "github.com/lianxiangcloud/linkchain/libs/db"
 	"github.com/lianxiangcloud/linkchain/libs/ser"
 	"github.com/lianxiangcloud/linkchain/types"
 	"pgregory.net/rapid"
@@ -49,50 +51,57 @@ type op struct {
 	minHeight uint64
 	apply     func(t *rapid.T, b *types.Block, n *consim.Net)
 	maxHeight uint64 // 0 = no upper bound
+	// neutral: the operator does not by itself make the block invalid (whether it does depends on the node's history, e.g.
+	// on what it has pruned): no vote is judged for it, only "nobody aborts" applies
+	neutral bool
 }
+
+// headerDonor: a VALID block of the current height that the correct nodes have fully validated in an earlier round that did
+// not decide (set by the schedule, nil otherwise).
+var headerDonor *types.Block
 
 func ops() []op {
 	return []op{
-		{"chain-id", 1, func(t *rapid.T, b *types.Block, n *consim.Net) { b.ChainID = "evil-chain" }, 0},
-		{"height+1", 1, func(t *rapid.T, b *types.Block, n *consim.Net) { b.Header.Height++ }, 0},
+		{"chain-id", 1, func(t *rapid.T, b *types.Block, n *consim.Net) { b.ChainID = "evil-chain" }, 0, false},
+		{"height+1", 1, func(t *rapid.T, b *types.Block, n *consim.Net) { b.Header.Height++ }, 0, false},
 		{"last-block-id-hash", 1, func(t *rapid.T, b *types.Block, n *consim.Net) {
 			b.LastBlockID.Hash = common.BytesToHash([]byte("bogus-last-block"))
-		}, 0},
-		{"last-block-id-parts", 2, func(t *rapid.T, b *types.Block, n *consim.Net) { b.LastBlockID.PartsHeader.Total += 3 }, 0},
+		}, 0, false},
+		{"last-block-id-parts", 2, func(t *rapid.T, b *types.Block, n *consim.Net) { b.LastBlockID.PartsHeader.Total += 3 }, 0, false},
 		{"total-txs", 1, func(t *rapid.T, b *types.Block, n *consim.Net) {
 			b.TotalTxs += uint64(rapid.IntRange(1, 1000).Draw(t, "dtotal"))
-		}, 0},
+		}, 0, false},
 		{"num-txs", 1, func(t *rapid.T, b *types.Block, n *consim.Net) {
 			b.NumTxs += uint64(rapid.IntRange(1, 5).Draw(t, "dnum"))
-		}, 0},
+		}, 0, false},
 		{"validators-hash", 1, func(t *rapid.T, b *types.Block, n *consim.Net) {
 			b.ValidatorsHash = common.BytesToHash([]byte("other-validators"))
-		}, 0},
+		}, 0, false},
 		{"consensus-hash", 1, func(t *rapid.T, b *types.Block, n *consim.Net) {
 			b.ConsensusHash = common.BytesToHash([]byte("other-params"))
-		}, 0},
+		}, 0, false},
 		{"last-commit-hash", 1, func(t *rapid.T, b *types.Block, n *consim.Net) {
 			b.LastCommitHash = common.BytesToHash([]byte("other-commit"))
-		}, 0},
+		}, 0, false},
 		{"evidence-hash", 1, func(t *rapid.T, b *types.Block, n *consim.Net) {
 			b.EvidenceHash = common.BytesToHash([]byte("other-evidence"))
-		}, 0},
-		{"data-hash", 1, func(t *rapid.T, b *types.Block, n *consim.Net) { b.DataHash = common.BytesToHash([]byte("other-data")) }, 0},
+		}, 0, false},
+		{"data-hash", 1, func(t *rapid.T, b *types.Block, n *consim.Net) { b.DataHash = common.BytesToHash([]byte("other-data")) }, 0, false},
 		{"commit-at-height-1", 1, func(t *rapid.T, b *types.Block, n *consim.Net) {
 			v := n.SignedVote(0, types.VoteTypePrecommit, 0, 0, types.BlockID{})
 			b.LastCommit = &types.Commit{BlockID: types.BlockID{}, Precommits: []*types.Vote{v}}
 			b.LastCommitHash = b.LastCommit.Hash()
-		}, 1},
+		}, 1, false},
 		{"last-commit-empty", 2, func(t *rapid.T, b *types.Block, n *consim.Net) {
 			b.LastCommit = &types.Commit{BlockID: b.LastCommit.BlockID}
 			b.LastCommitHash = b.LastCommit.Hash()
-		}, 0},
+		}, 0, false},
 		{"last-commit-truncated", 2, func(t *rapid.T, b *types.Block, n *consim.Net) {
 			c := *b.LastCommit
 			c.Precommits = append([]*types.Vote(nil), b.LastCommit.Precommits[:len(b.LastCommit.Precommits)-1]...)
 			b.LastCommit = &types.Commit{BlockID: c.BlockID, Precommits: c.Precommits}
 			b.LastCommitHash = b.LastCommit.Hash()
-		}, 0},
+		}, 0, false},
 		{"last-commit-below-two-thirds", 2, func(t *rapid.T, b *types.Block, n *consim.Net) {
 			pcs := append([]*types.Vote(nil), b.LastCommit.Precommits...)
 			kept := 0
@@ -106,7 +115,7 @@ func ops() []op {
 			}
 			b.LastCommit = &types.Commit{BlockID: b.LastCommit.BlockID, Precommits: pcs}
 			b.LastCommitHash = b.LastCommit.Hash()
-		}, 0},
+		}, 0, false},
 		{"last-commit-one-vote-in-every-slot", 2, func(t *rapid.T, b *types.Block, n *consim.Net) {
 			// ONE genuine precommit copied into every slot: every copy is correctly signed (by its one signer), only one
 			// validator stands behind the "commit".  The validator index and address inside a vote are not signed.
@@ -127,7 +136,7 @@ func ops() []op {
 			}
 			b.LastCommit = &types.Commit{BlockID: b.LastCommit.BlockID, Precommits: pcs}
 			b.LastCommitHash = b.LastCommit.Hash()
-		}, 0},
+		}, 0, false},
 		{"last-commit-one-vote-relabelled-in-every-slot", 2, func(t *rapid.T, b *types.Block, n *consim.Net) {
 			// the same, with the unsigned index/address fields of each copy set to the slot's validator
 			var one *types.Vote
@@ -151,7 +160,7 @@ func ops() []op {
 			}
 			b.LastCommit = &types.Commit{BlockID: b.LastCommit.BlockID, Precommits: pcs}
 			b.LastCommitHash = b.LastCommit.Hash()
-		}, 0},
+		}, 0, false},
 		{"last-commit-bad-signature", 2, func(t *rapid.T, b *types.Block, n *consim.Net) {
 			pcs := append([]*types.Vote(nil), b.LastCommit.Precommits...)
 			for i := range pcs {
@@ -163,7 +172,7 @@ func ops() []op {
 			}
 			b.LastCommit = &types.Commit{BlockID: b.LastCommit.BlockID, Precommits: pcs}
 			b.LastCommitHash = b.LastCommit.Hash()
-		}, 0},
+		}, 0, false},
 		{"last-commit-transplanted-signature", 2, func(t *rapid.T, b *types.Block, n *consim.Net) {
 			pcs := append([]*types.Vote(nil), b.LastCommit.Precommits...)
 			var first *types.Vote
@@ -181,7 +190,7 @@ func ops() []op {
 			}
 			b.LastCommit = &types.Commit{BlockID: b.LastCommit.BlockID, Precommits: pcs}
 			b.LastCommitHash = b.LastCommit.Hash()
-		}, 0},
+		}, 0, false},
 		{"last-commit-for-other-block", 2, func(t *rapid.T, b *types.Block, n *consim.Net) {
 			// correctly signed precommits by the (single) Byzantine key for ANOTHER block id, everybody else dropped
 			other := types.BlockID{Hash: common.BytesToHash([]byte("other-block")), PartsHeader: types.PartSetHeader{Total: 1, Hash: []byte("h")}}
@@ -192,15 +201,15 @@ func ops() []op {
 			}
 			b.LastCommit = &types.Commit{BlockID: other, Precommits: pcs}
 			b.LastCommitHash = b.LastCommit.Hash()
-		}, 0},
+		}, 0, false},
 		{"evidence-missing", 2, func(t *rapid.T, b *types.Block, n *consim.Net) {
 			b.Evidence.Evidence = nil
 			b.EvidenceHash = b.Evidence.Hash()
-		}, 0},
+		}, 0, false},
 		{"evidence-duplicated", 2, func(t *rapid.T, b *types.Block, n *consim.Net) {
 			b.Evidence.Evidence = append(b.Evidence.Evidence, b.Evidence.Evidence[0])
 			b.EvidenceHash = b.Evidence.Hash()
-		}, 0},
+		}, 0, false},
 		{"evidence-wrong-proposer", 2, func(t *rapid.T, b *types.Block, n *consim.Net) {
 			fv := *(b.Evidence.Evidence[0].(*types.FaultValidatorsEvidence))
 			for bi := range n.Byz {
@@ -211,20 +220,69 @@ func ops() []op {
 			}
 			b.Evidence.Evidence = types.EvidenceList{&fv}
 			b.EvidenceHash = b.Evidence.Hash()
-		}, 0},
+		}, 0, false},
 		{"evidence-nil-proposer", 2, func(t *rapid.T, b *types.Block, n *consim.Net) {
 			fv := *(b.Evidence.Evidence[0].(*types.FaultValidatorsEvidence))
 			fv.Proposer = nil
 			b.Evidence.Evidence = types.EvidenceList{&fv}
 			b.EvidenceHash = b.Evidence.Hash()
-		}, 0},
+		}, 0, false},
 		{"evidence-unsigned-duplicate-vote", 2, func(t *rapid.T, b *types.Block, n *consim.Net) {
 			va := n.SignedVote(0, types.VoteTypePrevote, b.Height-1, 0, types.BlockID{Hash: common.BytesToHash([]byte("a")), PartsHeader: types.PartSetHeader{Total: 1, Hash: []byte("h")}})
 			vb := n.SignedVote(0, types.VoteTypePrevote, b.Height-1, 0, types.BlockID{Hash: common.BytesToHash([]byte("b")), PartsHeader: types.PartSetHeader{Total: 1, Hash: []byte("h")}})
 			vb.Signature = va.Signature // the accused never signed vote B
 			b.Evidence.Evidence = append(b.Evidence.Evidence, &types.DuplicateVoteEvidence{PubKey: n.Vals[0].Pub, VoteA: va, VoteB: vb})
 			b.EvidenceHash = b.Evidence.Hash()
-		}, 0},
+		}, 0, false},
+		// the header of a valid block the nodes validated in an earlier, undecided round of this height, copied byte for byte over
+		// another body: the block hash (= header hash) is the one of the valid block, the body is not what the header commits to
+		{"validated-header-over-other-body", 1, func(t *rapid.T, b *types.Block, n *consim.Net) {
+			d := headerDonor
+			if d == nil || d.Height != b.Height {
+				return
+			}
+			var nb *types.Block
+			if bz, err := ser.EncodeToBytes(d); err != nil || ser.DecodeBytes(bz, &nb) != nil || nb == nil {
+				return
+			}
+			switch k := rapid.IntRange(0, 3).Draw(t, "bodychange"); {
+			case k == 0 && nb.LastCommit != nil && nb.LastCommit.FirstPrecommit() != nil:
+				for _, v := range nb.LastCommit.Precommits {
+					if v != nil && len(v.Signature.Bytes()) > 0 {
+						sig := append([]byte(nil), v.Signature.Bytes()...)
+						sig[len(sig)-1] ^= 1
+						if s2, err := crypto.SignatureFromBytes(sig); err == nil {
+							v.Signature = s2
+						}
+						break
+					}
+				}
+			case k == 1 && len(nb.Evidence.Evidence) > 0:
+				nb.Evidence.Evidence = nil
+			case k == 2 && len(nb.Evidence.Evidence) > 0:
+				nb.Evidence.Evidence = append(nb.Evidence.Evidence, nb.Evidence.Evidence[0])
+			default:
+				nb.Data.Txs = append(nb.Data.Txs, world.Transfer(world.DetAcct(100), 77, world.DetAcct(101).Addr, chainsim.E(1)))
+			}
+			b.Header, b.Data, b.Evidence, b.LastCommit = nb.Header, nb.Data, nb.Evidence, nb.LastCommit
+		}, 0, false},
+		// a GENUINE equivocation of the Byzantine validator itself (both votes really signed) at a generated height: an old one
+		// (valid evidence if the node still has that height's validator record, unverifiable if it pruned it), the previous
+		// one, or one the chain has not reached.  Validating it looks up the validator set of that height.
+		{"evidence-own-equivocation-at-generated-height", 2, func(t *rapid.T, b *types.Block, n *consim.Net) {
+			var who int
+			for bi := range n.Byz {
+				who = bi
+			}
+			h := uint64(rapid.IntRange(1, int(b.Height)+2).Draw(t, "evheight"))
+			if rapid.IntRange(0, 5).Draw(t, "evfar") == 0 {
+				h = uint64(rapid.SampledFrom([]int{0, 1 << 20, 1 << 40}).Draw(t, "evfarheight"))
+			}
+			va := n.SignedVote(who, types.VoteTypePrevote, h, 0, types.BlockID{Hash: common.BytesToHash([]byte("a")), PartsHeader: types.PartSetHeader{Total: 1, Hash: []byte("h")}})
+			vb := n.SignedVote(who, types.VoteTypePrevote, h, 0, types.BlockID{Hash: common.BytesToHash([]byte("b")), PartsHeader: types.PartSetHeader{Total: 1, Hash: []byte("h")}})
+			b.Evidence.Evidence = append(b.Evidence.Evidence, &types.DuplicateVoteEvidence{PubKey: n.Vals[who].Pub, VoteA: va, VoteB: vb})
+			b.EvidenceHash = b.Evidence.Hash()
+		}, 0, true},
 	}
 }
 
@@ -258,6 +316,23 @@ func runProposer(t *rapid.T) {
 	worlds := map[int]*world.World{}
 	apps := map[int]*consim.RealApp{}
 	tv := consim.TypesVals(vals)
+	// The power of one correct validator changes at a generated height (so the validator records in the status store have
+	// change heights), and the nodes may prune their consensus status, keeping a generated window, once the chain has grown.
+	changeAt := uint64(rapid.IntRange(0, 3).Draw(t, "valchange")) // 0 = never
+	tv2 := consim.TypesVals(vals)
+	tv2[(byzKey+1)%nv].VotingPower = 2
+	valsAt := func(h uint64) []*types.Validator {
+		if changeAt > 0 && h >= changeAt {
+			return tv2
+		}
+		return tv
+	}
+	pruneKeep := uint64(0)
+	if rapid.IntRange(0, 2).Draw(t, "pruning") == 0 {
+		pruneKeep = uint64(rapid.IntRange(1, 3).Draw(t, "prunekeep"))
+		vstat.Label("pruning_nodes")
+	}
+	pruned := map[uint64]bool{}
 	for i := 0; i < nv; i++ {
 		if byz[i] {
 			continue
@@ -268,7 +343,22 @@ func runProposer(t *rapid.T) {
 		}
 		defer w.Close()
 		worlds[i] = w
-		apps[i] = &consim.RealApp{W: w, Vals: tv}
+		apps[i] = &consim.RealApp{W: w, Vals: tv, ValsAt: valsAt}
+	}
+	if pruneKeep > 0 {
+		// pruning nodes keep their consensus status in goleveldb (MemDB answers a missing key differently, and the pruning
+		// bookkeeping depends on the difference)
+		var open []dbm.DB
+		defer func() {
+			for _, d := range open {
+				d.Close()
+			}
+		}()
+		n.StatusF = func(idx int) dbm.DB {
+			d := dbm.NewDB("consensus_state", dbm.GoLevelDBBackend, worlds[idx].DBs.Dir, 0)
+			open = append(open, d)
+			return d
+		}
 	}
 	n.AppFor = func(idx int) (consensus.BlockChainApp, *consim.ScriptApp) { return apps[idx], nil }
 	n.PoolFor = func(idx int) consensus.Mempool { return worlds[idx].Mempool }
@@ -292,6 +382,8 @@ func runProposer(t *rapid.T) {
 		round  int
 		passes bool // the application-level CheckBlock alone would let it through
 	}
+	neutralOnly := false
+	neutralAttacks := 0
 	var attacks []*attack
 	proposed := map[string]bool{}
 	byHash := map[common.Hash]*attack{}
@@ -301,6 +393,32 @@ func runProposer(t *rapid.T) {
 	startSig := atomic.LoadInt32(&sigterms)
 	signedSeen := map[int]int{}
 	starved := map[string]bool{}
+	voteStarved := map[string]bool{}
+	checkedUpTo := map[int]uint64{}
+	headerDonor = nil
+	donorOf := func(height uint64) *types.Block {
+		// the newest complete honest proposal of that height on the network, from a round without polka
+		var found *types.Block
+		for _, e := range n.Pool {
+			pm, ok := e.Msg.(*consensus.ProposalMessage)
+			if !ok || e.Byz || pm.Proposal == nil || pm.Proposal.Height != height || !voteStarved[fmt.Sprintf("%d/%d", height, pm.Proposal.Round)] {
+				continue
+			}
+			ps := types.NewPartSetFromHeader(pm.Proposal.BlockPartsHeader)
+			for _, e2 := range n.Pool {
+				if bp, ok := e2.Msg.(*consensus.BlockPartMessage); ok && !e2.Byz && bp.Height == height && bp.Round == pm.Proposal.Round {
+					ps.AddPart(bp.Part)
+				}
+			}
+			if ps.IsComplete() {
+				var b *types.Block
+				if _, err := ser.DecodeReader(ps.GetReader(), &b, 1<<24); err == nil && b != nil {
+					found = b
+				}
+			}
+		}
+		return found
+	}
 	nilVoted := map[string]bool{}
 	starveSeen := 0
 	txNonce := uint64(0)
@@ -349,6 +467,21 @@ func runProposer(t *rapid.T) {
 				if len(chosen) == 0 {
 					at = nil
 				} else {
+					if headerDonor = donorOf(rs.Height); headerDonor != nil && rapid.IntRange(0, 2).Draw(t, "usedonor") != 0 {
+						chosen = []op{table[len(table)-2]}
+						vstat.Label("proposal_over_validated_header")
+					}
+					if pruneKeep > 0 && rs.Height >= 3 && rapid.IntRange(0, 2).Draw(t, "oldevidence") == 0 {
+						chosen = []op{table[len(table)-1]} // pruning nodes see evidence for old heights more often
+					}
+					// a neutral operator stands alone (it recomputes hashes and would cancel a corruption drawn next to it)
+					neutralOnly = false
+					for _, o := range chosen {
+						if o.neutral {
+							chosen, neutralOnly = []op{o}, true
+							break
+						}
+					}
 					mutate = func(b *types.Block) {
 						before, _ := ser.EncodeToBytes(b)
 						for _, o := range chosen {
@@ -393,6 +526,13 @@ func runProposer(t *rapid.T) {
 				at = nil
 				vstat.Label("operators_cancelled_each_other")
 			}
+			if at != nil && neutralOnly {
+				// not judged: whether the block is valid depends on the receiver's history; what must hold is that nobody aborts
+				n.Logf("step %d: byzantine proposer signs a proposal for %s carrying %v (not judged; nobody may abort)", step, key, at.ops)
+				vstat.Label("neutral_attack")
+				neutralAttacks++
+				at = nil
+			}
 			if at != nil && rs.Round > 0 {
 				vstat.Label("corrupt_proposal_in_round_ge_1")
 				if p, ok := msgs[0].(*consensus.ProposalMessage); ok && p.Proposal.POLRound >= 0 {
@@ -402,7 +542,15 @@ func runProposer(t *rapid.T) {
 			if at != nil {
 				at.block = blk
 				attacks = append(attacks, at)
-				byHash[blk.Hash()] = at
+				sameHash := false
+				for _, o := range at.ops {
+					sameHash = sameHash || o == "validated-header-over-other-body"
+				}
+				if !sameHash {
+					// (a block that borrows the header of a valid block shares its hash: a vote for that hash may be a vote for the valid
+					// block, e.g. by a node locked on it; full validation (b) and what gets committed (c) judge that operator)
+					byHash[blk.Hash()] = at
+				}
 				vstat.Label("ops_" + fmt.Sprint(len(at.ops)))
 				for _, o := range at.ops {
 					vstat.Label("op_" + o)
@@ -456,7 +604,15 @@ func runProposer(t *rapid.T) {
 			case *consensus.ProposalMessage:
 				key = fmt.Sprintf("%d/%d", m.Proposal.Height, m.Proposal.Round)
 				if _, seen := starved[key]; !seen {
-					starved[key] = m.Proposal.Round < 3 && rapid.IntRange(0, 2).Draw(t, "starve") == 0
+					mode := rapid.IntRange(0, 5).Draw(t, "starve")
+					starved[key] = m.Proposal.Round < 3 && mode <= 1
+					// ... or the proposal arrives and is validated, but every correct node misses one prevote: no polka, nobody
+					// locks, the round ends undecided and the next proposer can build on what the nodes have already validated
+					voteStarved[key] = m.Proposal.Round < 3 && mode == 2
+					if voteStarved[key] {
+						n.Logf("step %d: in round %s every correct node misses one prevote", step, key)
+						vstat.Label("honest_round_without_polka")
+					}
 					if starved[key] {
 						n.Logf("step %d: the honest proposal for %s reaches nobody", step, key)
 						vstat.Label("honest_round_starved")
@@ -464,12 +620,39 @@ func runProposer(t *rapid.T) {
 				}
 			case *consensus.BlockPartMessage:
 				key = fmt.Sprintf("%d/%d", m.Height, m.Round)
+			case *consensus.VoteMessage:
+				if m.Vote != nil && m.Vote.Type == types.VoteTypePrevote && voteStarved[fmt.Sprintf("%d/%d", m.Vote.Height, m.Vote.Round)] {
+					// the prevote of correct node i never reaches the next correct node
+					for j, nd := range n.Nodes {
+						if nd.Idx == e.From {
+							n.Nodes[(j+1)%len(n.Nodes)].Delivered[starveSeen] = true
+						}
+					}
+				}
 			}
 			if key != "" && starved[key] {
 				for _, nd := range n.Nodes {
 					if nd.Idx != e.From {
 						nd.Delivered[starveSeen] = true
 					}
+				}
+			}
+		}
+		// like node.clearHistoricalDataRoutine: once per new height the pruning nodes delete what lies below their window
+		if pruneKeep > 0 {
+			for _, nd := range n.Nodes {
+				if h := nd.CS.GetState().LastBlockHeight; nd.Crashed == nil && h >= 2 && !pruned[h*100+uint64(nd.Idx)] {
+					pruned[h*100+uint64(nd.Idx)] = true
+					var pan interface{}
+					func() {
+						defer func() { pan = recover() }()
+						nd.CS.DeleteHistoricalData(pruneKeep)
+					}()
+					if pan != nil {
+						fail("pruning-panics", "validator %d: pruning the consensus status at height %d (window %d) panics: %v", nd.Idx, h, pruneKeep, pan)
+						return
+					}
+					n.Logf("step %d: validator %d prunes its consensus status at height %d, keeping %d", step, nd.Idx, h, pruneKeep)
 				}
 			}
 		}
@@ -509,7 +692,8 @@ func runProposer(t *rapid.T) {
 					if e.Vote.Type == types.VoteTypePrecommit {
 						typ = "precommit"
 					}
-					fail("honest-vote-for-invalid-block", "correct validator %d signed a %s at h=%d r=%d for a block corrupted by %v (it fails full validation; the application-level check alone passes: %v)", nd.Idx, typ, e.Vote.Height, e.Vote.Round, at.ops, at.passes)
+					rsd := nd.CS.GetRoundState()
+					fail("honest-vote-for-invalid-block", "correct validator %d signed a %s at h=%d r=%d for a block corrupted by %v (it fails full validation; the application-level check alone passes: %v); the node: round %d step %v locked round %d locked block %v proposal block %v", nd.Idx, typ, e.Vote.Height, e.Vote.Round, at.ops, at.passes, rsd.Round, rsd.Step, rsd.LockedRound, rsd.LockedBlock != nil, rsd.ProposalBlock != nil)
 					return
 				}
 			}
@@ -520,6 +704,16 @@ func runProposer(t *rapid.T) {
 			if nd.Crashed != nil {
 				fail("correct-node-aborted", "correct validator %d panicked: %v", nd.Idx, nd.Crashed)
 				return
+			}
+			// what it has committed is internally consistent (header hashes match the stored body)
+			for h := checkedUpTo[nd.Idx] + 1; h <= nd.App.Height(); h++ {
+				if b := nd.App.LoadBlock(h); b != nil {
+					if err := b.ValidateBasic(); err != nil {
+						fail("committed-block-inconsistent", "correct validator %d committed a block at height %d whose body is not what its header commits to: %v", nd.Idx, h, err)
+						return
+					}
+				}
+				checkedUpTo[nd.Idx] = h
 			}
 			if sh, ah := nd.CS.GetState().LastBlockHeight, nd.App.Height(); sh != ah {
 				fail("committed-block-does-not-apply", "correct validator %d: the application is at height %d but the consensus status stayed at %d (ApplyBlock failed after CommitBlock; SIGTERMs so far: %d)", nd.Idx, ah, sh, atomic.LoadInt32(&sigterms)-startSig)
@@ -542,6 +736,13 @@ func runProposer(t *rapid.T) {
 			nontriv = true
 			vstat.Label("attack_passes_application_check")
 		}
+	}
+	if neutralAttacks > 0 && pruneKeep > 0 {
+		vstat.Label("neutral_attack_on_pruning_nodes")
+		nontriv = true
+	}
+	if changeAt > 0 {
+		vstat.Label("validator_power_change")
 	}
 	vstat.Label(fmt.Sprintf("attacks_%d", min(len(attacks), 4)))
 	if nontriv {
